@@ -95,11 +95,12 @@ Record ttrk := {
   tt_cancel0 : bool;        (* cancel requested before it started *)
   tt_cancel1 : bool;        (* cancel requested while it was started and unfinished *)
   tt_consumed : bool;       (* its result was handed out or discarded *)
-  tt_cleaned : bool         (* clean_task_result was called while it had no result: the result will be discarded *)
+  tt_cleaned : bool;        (* clean_task_result was called while it had no result: the result will be discarded *)
+  tt_withdrawn : bool       (* ... and that happened after a cancel-before-start request, which it withdraws *)
 }.
 Definition ttrk0 (p : nat) (acc : bool) : ttrk :=
   {| tt_pool := p; tt_accepted := acc; tt_started := 0; tt_fin := None; tt_fincount := 0; tt_cancel0 := false;
-     tt_cancel1 := false; tt_consumed := false; tt_cleaned := false |}.
+     tt_cancel1 := false; tt_consumed := false; tt_cleaned := false; tt_withdrawn := false |}.
 
 Record ptrk := {
   pt_rank : nat;            (* last state seen: 0 Running 1 Stopping 2 Stopped *)
@@ -164,23 +165,23 @@ Definition pev (t : potr) (e : ev) : potr :=
              po_c01 := po_c01 t; po_c02 := po_c02 t; po_c11 := po_c11 t; po_c12 := po_c12 t; po_c13 := po_c13 t |}
       | BStart _ =>
           (* a task starts at most once, only if it was accepted, never after a cancel that came first
-             (cleaning its handle afterwards withdraws the request: see PClean) *)
+             (cleaning its handle afterwards withdraws the request, if it was still queued: see PClean) *)
           let t1 := flag t 1 (tt_accepted k && Nat.eqb (tt_started k) 0) in
-          let t2 := flag t1 13 (negb (tt_cancel0 k)) in
+          let t2 := flag t1 13 (negb (tt_cancel0 k) || tt_withdrawn k) in
           sett t2 i {| tt_pool := tt_pool k; tt_accepted := tt_accepted k; tt_started := S (tt_started k); tt_fin := tt_fin k;
                        tt_fincount := tt_fincount k; tt_cancel0 := tt_cancel0 k; tt_cancel1 := tt_cancel1 k;
-                       tt_consumed := tt_consumed k; tt_cleaned := tt_cleaned k |}
+                       tt_consumed := tt_consumed k; tt_cleaned := tt_cleaned k; tt_withdrawn := tt_withdrawn k |}
       | BRet v =>
           let t1 := flag t 1 (Nat.eqb (tt_fincount k) 0) in
           sett t1 i {| tt_pool := tt_pool k; tt_accepted := tt_accepted k; tt_started := tt_started k; tt_fin := Some (TOk v);
                        tt_fincount := S (tt_fincount k); tt_cancel0 := tt_cancel0 k; tt_cancel1 := tt_cancel1 k;
-                       tt_consumed := tt_consumed k; tt_cleaned := tt_cleaned k |}
+                       tt_consumed := tt_consumed k; tt_cleaned := tt_cleaned k; tt_withdrawn := tt_withdrawn k |}
       | BPanic pk =>
           let t1 := flag t 1 (Nat.eqb (tt_fincount k) 0) in
           sett t1 i {| tt_pool := tt_pool k; tt_accepted := tt_accepted k; tt_started := tt_started k;
                        tt_fin := Some (TErr (TM (panic_msg pk)));
                        tt_fincount := S (tt_fincount k); tt_cancel0 := tt_cancel0 k; tt_cancel1 := tt_cancel1 k;
-                       tt_consumed := tt_consumed k; tt_cleaned := tt_cleaned k |}
+                       tt_consumed := tt_consumed k; tt_cleaned := tt_cleaned k; tt_withdrawn := tt_withdrawn k |}
       | _ => t
       end
   end.
@@ -217,7 +218,7 @@ Definition expect_result (t : potr) (p i : nat) (npools : nat) (r : wres) (timeo
       let t1 := flag t 2 (((own || cancelled) && negb (tt_consumed k)) || stopped) in
       sett t1 i {| tt_pool := tt_pool k; tt_accepted := tt_accepted k; tt_started := tt_started k; tt_fin := tt_fin k;
                    tt_fincount := tt_fincount k; tt_cancel0 := tt_cancel0 k; tt_cancel1 := tt_cancel1 k;
-                   tt_consumed := true; tt_cleaned := tt_cleaned k |}
+                   tt_consumed := true; tt_cleaned := tt_cleaned k; tt_withdrawn := tt_withdrawn k |}
   | _ =>
       (* no result: only if the task has not finished, or its result is gone already *)
       let t1 := flag t 2 (is_none (tt_fin k) || tt_consumed k || tt_cleaned k) in
@@ -263,15 +264,17 @@ Definition postep (npools : nat) (maxes : list Z) (t : potr) (o : pop) (ob : pob
         (* the result is there: it is taken and dropped *)
         sett (unquiet t) i {| tt_pool := tt_pool k; tt_accepted := tt_accepted k; tt_started := tt_started k; tt_fin := tt_fin k;
                               tt_fincount := tt_fincount k; tt_cancel0 := tt_cancel0 k; tt_cancel1 := tt_cancel1 k;
-                              tt_consumed := true; tt_cleaned := tt_cleaned k |}
+                              tt_consumed := true; tt_cleaned := tt_cleaned k; tt_withdrawn := tt_withdrawn k |}
       else
-        (* no result to take: whatever the task produces later is discarded, and a pending
-           cancel-before-start request is withdrawn *)
+        (* no result to take: whatever the task produces later is discarded, and a
+           cancel-before-start request made earlier is withdrawn (if the task was still queued;
+           the tracker cannot see that, so the request stays recorded for the liveness clauses) *)
         sett (unquiet t) i {| tt_pool := tt_pool k; tt_accepted := tt_accepted k; tt_started := tt_started k; tt_fin := tt_fin k;
                               tt_fincount := tt_fincount k;
-                              tt_cancel0 := tt_cancel0 k && negb (Nat.eqb (tt_started k) 0);
+                              tt_cancel0 := tt_cancel0 k;
                               tt_cancel1 := tt_cancel1 k;
-                              tt_consumed := tt_consumed k; tt_cleaned := true |}
+                              tt_consumed := tt_consumed k; tt_cleaned := true;
+                              tt_withdrawn := tt_withdrawn k || tt_cancel0 k |}
   | PCancel i, OUnitP =>
       let k := gett t i in
       if negb (tt_accepted k) || negb (is_none (tt_fin k)) then t
@@ -280,7 +283,7 @@ Definition postep (npools : nat) (maxes : list Z) (t : potr) (o : pop) (ob : pob
                               tt_fincount := tt_fincount k;
                               tt_cancel0 := tt_cancel0 k || Nat.eqb (tt_started k) 0;
                               tt_cancel1 := tt_cancel1 k || negb (Nat.eqb (tt_started k) 0);
-                              tt_consumed := tt_consumed k; tt_cleaned := tt_cleaned k |}
+                              tt_consumed := tt_consumed k; tt_cleaned := tt_cleaned k; tt_withdrawn := tt_withdrawn k |}
   | PStop p dur, OStop r evs =>
       let all_done_before := forallb task_done (po_tasks t) in
       let t0 := unquiet t in
